@@ -177,26 +177,53 @@ pub struct SeqCase {
     /// single step (`first`, `op1`): the chip's LDRO bit is compared with the decision itself
     #[serde(default)]
     pub against_rule: bool,
+    /// the second preparation is first attempted with its `fault`-th environment call failing, then repeated
+    #[serde(default)]
+    pub fault: Option<usize>,
 }
 
 /// (sf, bw code, ldro) as the chip holds them; None when a step of the sequence was refused / failed.
 fn run_seq(chip: &str, steps: &[((usize, usize), u8, u8)], crc_off: bool) -> Result<Option<(u8, u8, bool)>, String> {
+    run_seq_f(chip, steps, crc_off, None).map(|r| r.map(|x| x.0))
+}
+
+/// As `run_seq`; with `fault` the last preparation is attempted once with that environment call failing and then
+/// repeated. Also returns the number of environment calls of the (first attempt of the) last preparation.
+fn run_seq_f(chip: &str, steps: &[((usize, usize), u8, u8)], crc_off: bool, fault: Option<usize>) -> Result<Option<((u8, u8, bool), usize)>, String> {
     use crate::chips::{Sx126xChip, Sx127xChip};
     use lora_phy::{LoRa, RxMode};
     let is126 = chip == "sx1262";
     let is72 = chip == "sx1272";
     let env = if is126 { Env::new(Box::new(Sx126xChip::new())) } else { Env::new(Box::new(Sx127xChip::new(is72))) };
     let e2 = env.clone();
+    let used_cell = std::rc::Rc::new(std::cell::Cell::new(0usize));
+    let used = used_cell.clone();
     let ok = catch(move || -> Option<()> {
         let payload = [0x40u8, 1, 2, 3, 4, 5, 6, 7, 8, 9, 10, 11];
         macro_rules! go {
             ($rk:expr) => {{
                 let mut l = drive(LoRa::new($rk, true, e2.delay()))?.ok()?;
-                for &((sf, bw), op, middle) in steps {
+                let nsteps = steps.len();
+                for (si, &((sf, bw), op, middle)) in steps.iter().enumerate() {
                     let mp = l.create_modulation_params(SFS[sf], BWS[bw], CodingRate::_4_5, 868_100_000).ok()?;
                     let mut txp = l.create_tx_packet_params(8, false, !crc_off, crc_off, &mp).ok()?;
                     let rxp = l.create_rx_packet_params(8, false, 64, !crc_off, true, &mp).ok()?;
                     let mut buf = [0u8; 64];
+                    if si + 1 == nsteps
+                        && let Some(k) = fault
+                    {
+                        // first attempt with one failing environment call; whatever it returns, the application retries
+                        let p0 = e2.0.borrow().pos;
+                        e2.0.borrow_mut().fault_at = Some(p0 + k);
+                        let _ = match op {
+                            0 => drive(l.prepare_for_tx(&mp, &mut txp, 14, &payload)),
+                            1 => drive(l.prepare_for_rx(RxMode::Single(10), &mp, &rxp)),
+                            2 => drive(l.prepare_for_rx(RxMode::Continuous, &mp, &rxp)),
+                            _ => drive(l.prepare_for_cad(&mp)),
+                        };
+                        used.set(e2.0.borrow().pos - p0);
+                        e2.0.borrow_mut().fault_at = None;
+                    }
                     match op {
                         0 => drive(l.prepare_for_tx(&mp, &mut txp, 14, &payload))?.ok()?,
                         1 => drive(l.prepare_for_rx(RxMode::Single(10), &mp, &rxp))?.ok()?,
@@ -240,11 +267,12 @@ fn run_seq(chip: &str, steps: &[((usize, usize), u8, u8)], crc_off: bool) -> Res
     if ok.is_none() {
         return Ok(None);
     }
-    Ok(Some(if is126 {
+    let n_used = used_cell.get();
+    Ok(Some((if is126 {
         env.with_chip::<Sx126xChip, _>(|c| (c.mod_params[0], c.mod_params[1], c.mod_params[3] & 1 != 0))
     } else {
         env.with_chip::<Sx127xChip, _>(|c| if is72 { (c.regs[0x1E] >> 4, c.regs[0x1D] >> 6, c.regs[0x1D] & 0x01 != 0) } else { (c.regs[0x1E] >> 4, c.regs[0x1D] >> 4, c.regs[0x26] & 0x08 != 0) })
-    }))
+    }, n_used)))
 }
 
 pub fn eval_seq(c: &SeqCase) -> Vec<(String, String)> {
@@ -267,8 +295,8 @@ pub fn eval_seq(c: &SeqCase) -> Vec<(String, String)> {
             Ok(None) => vec![],
         };
     }
-    let tag = format!("{}|sequence", c.chip);
-    let seq = run_seq(&c.chip, &[(c.first, c.op1, c.middle), (c.second, c.op2, 0)], c.crc_off);
+    let tag = format!("{}|sequence{}", c.chip, if c.fault.is_some() { "-with-a-failed-attempt" } else { "" });
+    let seq = run_seq_f(&c.chip, &[(c.first, c.op1, c.middle), (c.second, c.op2, 0)], c.crc_off, c.fault).map(|r| r.map(|x| x.0));
     let alone = run_seq(&c.chip, &[(c.second, c.op2, 0)], c.crc_off);
     match (seq, alone) {
         (Err(p), _) | (_, Err(p)) => vec![(format!("C15|{tag}|panic|{}", panic_site(&p)), p)],
@@ -390,7 +418,7 @@ pub fn run(tier: Tier, replay: Option<&str>) {
                                 if crc_off && !(middle == 0 || middle == 4) {
                                     continue;
                                 }
-                                let c = SeqCase { chip: chip.into(), first, op1, middle, second, op2, crc_off, against_rule: false };
+                                let c = SeqCase { chip: chip.into(), first, op1, middle, second, op2, crc_off, against_rule: false, fault: None };
                                 let v = eval_seq(&c);
                                 seq_cases += 1;
                                 if matches!(run_seq(chip, &[(first, op1, middle), (second, op2, 0)], crc_off), Ok(Some(_))) {
@@ -407,6 +435,32 @@ pub fn run(tier: Tier, replay: Option<&str>) {
             }
         }
     }
+    // a preparation that fails at one environment call and is repeated: the chip ends up as after a clean preparation
+    for chip in ["sx1262", "sx1276", "sx1272"] {
+        for &first in &[(2usize, 7usize), (7, 7)] {
+            for &second in &[(2usize, 7usize), (6, 7), (7, 7)] {
+                if first == second {
+                    continue;
+                }
+                for op2 in [0u8, 1] {
+                    let steps = [(first, 0u8, 1u8), (second, op2, 0u8)];
+                    let n = match run_seq_f(chip, &steps, false, Some(1_000_000)) {
+                        Ok(Some((_, n))) => n,
+                        _ => 0,
+                    };
+                    for k in 0..n {
+                        let c = SeqCase { chip: chip.into(), first, op1: 0, middle: 1, second, op2, crc_off: false, against_rule: false, fault: Some(k) };
+                        for (sig, what) in eval_seq(&c) {
+                            ctx.violation(sig, what, serde_json::to_value(&c).unwrap(), 3);
+                        }
+                        seq_cases += 1;
+                        seq_effective += 1;
+                        ctx.tick(1);
+                    }
+                }
+            }
+        }
+    }
     // the decision a fresh driver programs is itself the rule's: after every sequence above the chip was compared with
     // a fresh driver, and a fresh driver's LDRO bit with the rule here (through the LoRa front-end, CRC on and off)
     for chip in ["sx1262", "sx1276", "sx1272"] {
@@ -414,7 +468,7 @@ pub fn run(tier: Tier, replay: Option<&str>) {
             for bw in 0..10usize {
                 for op in 0..4u8 {
                     for crc_off in [false, true] {
-                        let c = SeqCase { chip: chip.into(), first: (sf, bw), op1: op, middle: 0, second: (sf, bw), op2: op, crc_off, against_rule: true };
+                        let c = SeqCase { chip: chip.into(), first: (sf, bw), op1: op, middle: 0, second: (sf, bw), op2: op, crc_off, against_rule: true, fault: None };
                         for (sig, what) in eval_seq(&c) {
                             ctx.violation(sig, what, serde_json::to_value(&c).unwrap(), 1);
                         }
@@ -433,7 +487,7 @@ pub fn run(tier: Tier, replay: Option<&str>) {
         "sequences_run_to_the_end": seq_effective,
         "evaluations": ctx.evals(),
         "distinct_nontrivial": supported,
-        "rule": "all 8 spreading factors x 10 bandwidths x {airtime calculator, SX1261, SX1262, STM32WL LP/HP, SX1272, SX1276, LR1110}; for every pair the chip accepts: the decision in ModulationParams / BaseBandModulationParams and the LDRO bit actually written on SPI by set_modulation_params (for the register-based SX127x with all 256 prior values of the read-modify-write register) against the exact rational rule 2^SF/BW >= 16.38 ms; for the SX127x additionally the bit left in the chip model's register file after set_modulation_params -> set_packet_params for every combination of header mode, payload CRC and IQ inversion; every pair through the LoRa front-end (prepare_for_tx / rx / cad, CRC on and off): the chip's LDRO bit equals the decision; sequences through the LoRa front-end on one driver instance (SX1262, SX1276, SX1272 chip models): {prepare_for_tx, prepare_for_rx single/continuous, prepare_for_cad} with one modulation, {nothing, operation completed, listen(), reception left running, init() (chip reset), sleep cold / warm, completed then init()}, then a prepare_for_* with a second modulation (the same one included): the chip's SF/BW/LDRO must equal what a fresh driver programs; non-trivial = pairs the chip supports",
+        "rule": "all 8 spreading factors x 10 bandwidths x {airtime calculator, SX1261, SX1262, STM32WL LP/HP, SX1272, SX1276, LR1110}; for every pair the chip accepts: the decision in ModulationParams / BaseBandModulationParams and the LDRO bit actually written on SPI by set_modulation_params (for the register-based SX127x with all 256 prior values of the read-modify-write register) against the exact rational rule 2^SF/BW >= 16.38 ms; for the SX127x additionally the bit left in the chip model's register file after set_modulation_params -> set_packet_params for every combination of header mode, payload CRC and IQ inversion; every pair through the LoRa front-end (prepare_for_tx / rx / cad, CRC on and off): the chip's LDRO bit equals the decision; sequences through the LoRa front-end on one driver instance (SX1262, SX1276, SX1272 chip models): {prepare_for_tx, prepare_for_rx single/continuous, prepare_for_cad} with one modulation, {nothing, operation completed, listen(), reception left running, init() (chip reset), sleep cold / warm, completed then init()}, then a prepare_for_* with a second modulation (the same one included): the chip's SF/BW/LDRO must equal what a fresh driver programs; the same when the second preparation first fails at one of its environment calls (every position) and is repeated; non-trivial = pairs the chip supports",
         "samples": [serde_json::to_value(Case { chip: "sx1276".into(), sf: 6, bw: 7 }).unwrap(), serde_json::to_value(Case { chip: "sx1262".into(), sf: 7, bw: 6 }).unwrap()],
         "exhaustive": true,
         "pairs_supported": supported,
